@@ -273,7 +273,14 @@ _JOB_FN = None
 
 
 def _call(job):
-    return _JOB_FN(job)
+    from . import peer as _peer
+    try:
+        out = _JOB_FN(job)
+    except SystemExit as e:      # (peer.HarnessBug: a pool worker must not simply exit, the pool would wait for ever)
+        raise RuntimeError(f'harness bug in a worker: {e}') from e
+    if _peer.HARNESS_BUGS:
+        raise RuntimeError(f'harness bug in a worker: {_peer.HARNESS_BUGS[0]}')
+    return out
 
 
 def pmap(fn, jobs, workers: int | None = None, chunksize: int = 1):
